@@ -454,3 +454,27 @@ Definition jcalls_detached (sched : list jstep) : list lev :=
 
 Definition jevents (sched : list jstep) : list bev :=
   flat_map (fun s => match s with JReplay _ _ => [] | JEvent b => [b] end) sched.
+
+(* ---------------------------------------------------------------- generations of a watcher *)
+(* Every time a key that is not watched is monitored, a NEW watchValue is created (Unmonitor of
+   the last listener deletes the old one and cancels its watch); the watch goroutine of an old
+   generation may still be in the middle of a watch response.  [gens]: the values of every
+   watchValue ever created for one key, newest last. *)
+Definition gens := list (amap Z).
+
+Fixpoint upd_nth (g : nat) (f : amap Z -> amap Z) (gs : gens) : gens :=
+  match gs, g with
+  | [], _ => []
+  | m :: gs', O => f m :: gs'
+  | m :: gs', S g' => m :: upd_nth g' f gs'
+  end.
+
+(* the code: handleWatchEvents looks the watchValue up ONCE per response and applies every
+   event of the response to that object - the goroutine of generation g writes generation g *)
+Definition apply_bound (g : nat) (evs : list bev) (gs : gens) : gens :=
+  upd_nth g (fun m => fold_left bapply evs m) gs.
+
+(* the variant that looks the watcher up BY KEY for every event (seeded change C13-8): the rest
+   of a response goes to whatever generation is current *)
+Definition apply_bykey (evs : list bev) (gs : gens) : gens :=
+  upd_nth (Nat.pred (length gs)) (fun m => fold_left bapply evs m) gs.
